@@ -18,6 +18,7 @@
 #include <sys/resource.h>
 #include <sys/types.h>
 #include <poll.h>
+#include <dlfcn.h>
 #include <cerrno>
 #include <memory>
 #include <exception>
@@ -25,6 +26,7 @@
 extern "C" size_t __sanitizer_get_current_allocated_bytes();
 extern "C" int __lsan_do_recoverable_leak_check();
 extern "C" void __sanitizer_symbolize_pc(void* pc, const char* fmt, char* out_buf, size_t out_buf_size);
+extern "C" void __sanitizer_print_stack_trace();
 extern "C" int __sanitizer_install_malloc_and_free_hooks(void (*malloc_hook)(const volatile void*, size_t),
                                                          void (*free_hook)(const volatile void*));
 
@@ -46,7 +48,31 @@ struct Target {
   std::string family, kind, path;   // path: bytes | stream | wrap | writable_wrap
   BuildFn build;
   ReadFn read;
+  // number of PREAMBLE bytes of this image (the property speaks of "changing any preamble byte"); optional:
+  // without it the family table in default_preamble() applies
+  std::function<size_t(const Bytes&)> preamble;
 };
+
+// Length of the preamble as the image itself declares it (first byte = preamble ints / longs in every
+// DataSketches layout).  Corruption is enumerated over min(size, 64) leading bytes; a finding at a position
+// inside the preamble is a violation of C11, one behind it (entry / item / register data) is outside the
+// property text and only recorded in the counters ("outside-property:...").
+inline size_t default_preamble(const std::string& family, const Bytes& img) {
+  if (img.empty()) return 0;
+  auto starts = [&](const char* p) { return family.rfind(p, 0) == 0; };
+  const size_t b0 = img[0];
+  size_t n = 64;
+  if (starts("theta") || starts("tuple")) n = 8 * (b0 & 0x3f);
+  else if (starts("array_of_doubles")) n = img.size() > 16 ? 24 : 16;       // fixed header; count + padding follow theta when there are entries
+  else if (starts("hll")) n = 4 * b0;
+  else if (starts("cpc")) n = 4 * b0;
+  else if (starts("kll") || starts("density")) n = 4 * b0;
+  else if (starts("req")) n = 8;                                              // + what follows is covered by the unit's own rule if it sets one
+  else if (starts("quantiles") || starts("fi_") || starts("count_min") || starts("bloom") || starts("tdigest") || starts("ebpps")) n = 8 * (b0 & 0x3f);
+  else if (starts("varopt")) n = 8 * (b0 & 0x3f);
+  if (n < 8) n = 8;
+  return std::min(n, img.size());
+}
 
 // helper: turn a stream-based reader into a ReadFn (std::istringstream over the prefix, exception mask
 // left at the default = off, as a user would)
@@ -222,7 +248,7 @@ inline void child_run(const Target& t, const Bytes& img, const std::vector<Fault
     for (int rep = 0; rep < 3; ++rep) {
       ExactBuf b(img.data(), n);
       if (!trunc) b.p[f.a] = f.b;
-      datasketches::random_utils::rand.seed(12345 + i); datasketches::random_utils::random_bit.seed(12345 + i);
+      datasketches::random_utils::rand.seed(12345); datasketches::random_utils::random_bit.seed(12345);   // same engine state as for the baseline read-out
       diff[0] = 0; what[0] = 0;
       const size_t before = __sanitizer_get_current_allocated_bytes();
       const Attempt a = attempt(t, b.p, n, !trunc, trunc ? &baseline : nullptr, diff, sizeof diff, what, sizeof what);
@@ -261,6 +287,7 @@ inline void child_run(const Target& t, const Bytes& img, const std::vector<Fault
       for (size_t k = n; k < img.size(); ++k) if (img[k]) { tail_zero = false; break; }
       ExactBuf b(img.data(), img.size());
       for (size_t k = n; k < img.size(); ++k) b.p[k] ^= 0xff;
+      datasketches::random_utils::rand.seed(12345); datasketches::random_utils::random_bit.seed(12345);
       Attempt a = attempt(t, b.p, b.n, false, &baseline, diff, sizeof diff, what, sizeof what);
       if (!(a.status == 1 && a.same)) {
         out = O_VIOL;
@@ -281,7 +308,7 @@ inline void child_run(const Target& t, const Bytes& img, const std::vector<Fault
 inline std::string repo_prefix() { const char* e = getenv("VERIF_REPO"); return std::string(e && *e ? e : "/repo") + "/"; }
 
 // reduce a sanitizer report to (class, frame)
-inline void classify_report(const std::string& err, std::string& cls, std::string& frame) {
+inline void classify_report(const std::string& err, std::string& cls, std::string& frame, std::string* trace = nullptr) {
   cls.clear(); frame = "?";
   size_t p;
   if ((p = err.find("ERROR: AddressSanitizer: ")) != std::string::npos) {
@@ -318,19 +345,7 @@ inline void classify_report(const std::string& err, std::string& cls, std::strin
   else if (err.find("Assertion") != std::string::npos) cls = "assert";
   // innermost frame inside the library
   const std::string pre = repo_prefix();
-  size_t pos = 0;
-  while (pos < err.size()) {
-    size_t e = err.find('\n', pos); if (e == std::string::npos) e = err.size();
-    std::string line = err.substr(pos, e - pos);
-    pos = e + 1;
-    size_t h = line.find('#');
-    if (h == std::string::npos) continue;
-    size_t in = line.find(" in ", h);
-    if (in == std::string::npos) continue;
-    size_t fp = line.find(" " + pre, in);
-    if (fp == std::string::npos) continue;
-    std::string fn = line.substr(in + 4, fp - (in + 4));
-    std::string file = line.substr(fp + 1);
+  auto shorten = [](std::string fn, std::string file, std::string& out) {
     size_t colon = file.find(':'); if (colon != std::string::npos) file = file.substr(0, colon);
     size_t sl = file.rfind('/'); if (sl != std::string::npos) file = file.substr(sl + 1);
     // strip template arguments and parameter list
@@ -339,7 +354,43 @@ inline void classify_report(const std::string& err, std::string& cls, std::strin
     size_t cc = g.rfind("::"); if (cc != std::string::npos) g = g.substr(cc + 2);
     while (!g.empty() && g.back() == ' ') g.pop_back();
     size_t sp = g.rfind(' '); if (sp != std::string::npos) g = g.substr(sp + 1);
-    frame = file + ":" + g;
+    out = file + ":" + g;
+  };
+  size_t pos = 0;
+  int unsym = 0;
+  while (pos < err.size()) {
+    size_t e = err.find('\n', pos); if (e == std::string::npos) e = err.size();
+    std::string line = err.substr(pos, e - pos);
+    pos = e + 1;
+    size_t h = line.find('#');
+    if (h == std::string::npos) continue;
+    size_t in = line.find(" in ", h);
+    if (in == std::string::npos) {
+      // frame printed without symbols ("#3 0x55d0c0de  (/path/unit+0xc0de)"): the child is a fork of this very process, so
+      // the address can be symbolized here, with the symbolizer that was warmed up once
+      size_t x = line.find("0x", h);
+      if (x == std::string::npos || unsym > 40) continue;
+      ++unsym;
+      const uintptr_t pc = static_cast<uintptr_t>(strtoull(line.c_str() + x, nullptr, 16));
+      if (!pc) continue;
+      char buf[4096]; memset(buf, 0, sizeof buf);
+      __sanitizer_symbolize_pc(reinterpret_cast<void*>(pc), "%f\t%s:%l", buf, sizeof buf - 2);
+      // several null-separated entries when functions were inlined; innermost first
+      const char* q = buf;
+      while (*q) {
+        std::string ent(q); q += ent.size() + 1;
+        size_t tab = ent.find('\t');
+        if (tab == std::string::npos) continue;
+        std::string fn = ent.substr(0, tab), file = ent.substr(tab + 1);
+        if (trace && unsym <= 10) *trace += (trace->empty() ? "" : " <- ") + fn.substr(0, 120) + " " + file;
+        if (frame == "?" && file.compare(0, pre.size(), pre) == 0) shorten(fn, file, frame);
+      }
+      if (frame != "?" && (!trace || unsym >= 10)) break;
+      continue;
+    }
+    size_t fp = line.find(" " + pre, in);
+    if (fp == std::string::npos) continue;
+    shorten(line.substr(in + 4, fp - (in + 4)), line.substr(fp + 1), frame);
     break;
   }
 }
@@ -354,7 +405,8 @@ inline std::string fault_str(const Fault& f, const Bytes& img) {
 struct RunStats { uint64_t forks = 0, deaths = 0; };
 
 // per-process: first witness per key is recorded through vf::fail, the rest only counted
-inline void report(const std::string& key, const std::string& detail) {
+inline void report(const std::string& key, const std::string& detail, bool outside = false) {
+  if (outside) { count("outside_property_data_byte_findings"); count("outside-property:" + key); return; }
   static std::map<std::string, uint64_t> seen;
   uint64_t& n = seen[key];
   ++n;
@@ -433,6 +485,18 @@ inline void run_target_case(const Target& t, uint64_t variant, Rng& r) {
     // info instead of re-reading it for each sanitizer report (0.4 s -> a few ms per report)
     char sb[512]; sb[0] = 0;
     __sanitizer_symbolize_pc(reinterpret_cast<void*>(reinterpret_cast<uintptr_t>(&classify_report) + 8), "%f %s:%l", sb, sizeof sb);
+    // ... the same for the UBSan runtime, which keeps a symbolizer of its own (libubsan.so.1 next to libasan)
+    if (void* ub = dlopen("libubsan.so.1", RTLD_NOW | RTLD_NOLOAD)) {
+      typedef void (*sym_fn)(void*, const char*, char*, size_t);
+      if (sym_fn f = reinterpret_cast<sym_fn>(dlsym(ub, "__sanitizer_symbolize_pc")))
+        f(reinterpret_cast<void*>(reinterpret_cast<uintptr_t>(&classify_report) + 8), "%f %s:%l", sb, sizeof sb);
+    }
+    // ... and the unwinder (one full stack trace into /dev/null)
+    fflush(nullptr);
+    const int saved = dup(2), dn = open("/dev/null", O_WRONLY);
+    if (saved >= 0 && dn >= 0) { dup2(dn, 2); __sanitizer_print_stack_trace(); dup2(saved, 2); }
+    if (dn >= 0) close(dn);
+    if (saved >= 0) close(saved);
   }
   Shm* s = shm();
   // image: function of (seed, family, kind, variant) only, so that all paths of a kind see the same images
@@ -448,11 +512,16 @@ inline void run_target_case(const Target& t, uint64_t variant, Rng& r) {
   count("image_bytes", img.size());
   if (img.size() > 8192) count("images_over_8k");
   std::vector<Fault> faults = enumerate_faults(img, r);
+  const size_t pre = t.preamble ? std::min(t.preamble(img), img.size()) : default_preamble(t.family, img);
+  auto outside = [&](const Fault& f) { return f.type == F_CORRUPT && f.a >= pre; };
+  count("preamble_bytes", pre);
   memset(s->outcome, 0, sizeof s->outcome);
   const uint32_t N = static_cast<uint32_t>(faults.size());
   const uint32_t SLICE = 400;
   uint32_t next = 0;
-  uint64_t nrej = 0, nident = 0, nusable = 0, nthrew = 0, nviol = 0, ndeaths = 0;
+  uint64_t nrej = 0, nident = 0, nusable = 0, nthrew = 0, nviol = 0, ndeaths = 0, nskipped = 0;
+  uint32_t nhang[2] = {0, 0};
+  const uint32_t HANG_CAP = 4;
   uint64_t sigacc = mix64(h, img.size());
   auto process_recs = [&](const ChildEnd& ce) {
     // oracle verdicts recorded by the child
@@ -461,14 +530,14 @@ inline void run_target_case(const Target& t, uint64_t variant, Rng& r) {
       const Fault& f = faults[rc.idx < N ? rc.idx : 0];
       std::string cls = rc.cls;
       std::string detail = fault_str(f, img) + ": " + rc.detail;
-      std::string key = tk + "|" + (f.type == F_TRUNC ? "trunc" : "corrupt") + "|" + cls;
+      std::string key = tk + "|" + (f.type == F_TRUNC ? "trunc" : outside(f) ? "corrupt-data" : "corrupt") + "|" + cls;
       if (cls.rfind("leak", 0) == 0) {
         // allocation site inside the library, taken from the LeakSanitizer report the child printed
         std::string c2, frame; classify_report(ce.err, c2, frame);
         key += "|" + frame;
         detail += " | " + ce.err.substr(0, 2500);
       }
-      report(key, detail);
+      report(key, detail, outside(f));
     }
     count("tail_zero_accepted_identical", s->tail_zero_ident);
     count("large_allocations_over_64MiB", s->n_large_alloc);
@@ -510,8 +579,8 @@ inline void run_target_case(const Target& t, uint64_t variant, Rng& r) {
     const Fault& f = faults[bad];
     uint32_t phase = s->phase;
     const bool blow = s->mem_blowup || (ce.kind == 0 && ce.code == 95);
-    std::string cls, frame;
-    classify_report(ce.err, cls, frame);
+    std::string cls, frame, trace;
+    classify_report(ce.err, cls, frame, &trace);
     bool hang = false;
     if (ce.kind == 0 && ce.code == 98) {
       // CPU limit: confirm by running this fault alone with a fresh 10 s budget
@@ -521,8 +590,9 @@ inline void run_target_case(const Target& t, uint64_t variant, Rng& r) {
       process_recs(ce2);
       if (ce2.kind == 0 && ce2.code == 98) { hang = true; cls = "hang"; frame = "cpu-limit-10s"; }
       else if (ce2.kind == 0 && ce2.code == 0 && s->slice_done) { count("cpu_limit_not_reproduced"); account(bad, bad + 1); next = bad + 1; continue; }
-      else { ce = ce2; phase = s->phase; classify_report(ce.err, cls, frame); }
+      else { ce = ce2; phase = s->phase; trace.clear(); classify_report(ce.err, cls, frame, &trace); }
     }
+    if (hang) ++nhang[f.type];
     if (!hang) {
       if (blow) { cls = "memory-blowup-over-3GiB"; }
       else if (cls.empty()) {
@@ -530,16 +600,25 @@ inline void run_target_case(const Target& t, uint64_t variant, Rng& r) {
         else cls = "exit-" + std::to_string(ce.code);
       }
     }
-    std::string mode = f.type == F_TRUNC ? "trunc" : "corrupt";
+    std::string mode = f.type == F_TRUNC ? "trunc" : outside(f) ? "corrupt-data" : "corrupt";
     if (phase == P_TAILCHECK) mode = "tail-inverted";   // crash while reading the full image with an inverted tail (a corruption, not a truncation)
     std::string key = tk + "|" + mode + "|" + cls + "|" + frame;
     report(key, fault_str(f, img) + (phase == P_TAILCHECK ? " (prefix was accepted identically; crash while reading the full image with the missing tail inverted)" : "") +
-           " | child " + (ce.kind ? "signal " : "exit ") + std::to_string(ce.code) + " | " + ce.err.substr(0, 3500));
-    ++nviol;
+           " | child " + (ce.kind ? "signal " : "exit ") + std::to_string(ce.code) + " | " + ce.err.substr(0, 3500) +
+           (trace.empty() ? "" : " | symbolized: " + trace), outside(f));
+    if (!outside(f)) ++nviol;
     sigacc = mix64(sigacc, 0xdead);
     next = bad + 1;
+    // every confirmed hang costs ~20 CPU-seconds: after HANG_CAP of them on this image stop enumerating faults of that type
+    // (an image whose every truncation hangs would otherwise take hours); the skipped faults are counted
+    if (hang && nhang[f.type] >= HANG_CAP) {
+      uint32_t skipped = 0;
+      while (next < N && faults[next].type == f.type) { ++next; ++skipped; }
+      count("faults_skipped_after_hang_cap", skipped);
+      nskipped += skipped;
+    }
   }
-  count("faults", N);
+  count("faults", N - nskipped);
   uint64_t ntr = 0; for (auto& f : faults) if (f.type == F_TRUNC) ++ntr;
   count("faults_trunc", ntr);
   count("faults_corrupt", N - ntr);
@@ -549,7 +628,7 @@ inline void run_target_case(const Target& t, uint64_t variant, Rng& r) {
   count("accepted_then_threw_in_use", nthrew);
   count("fault_violations", nviol);
   count("path:" + t.path);
-  checked(N);
+  checked(N - nskipped);
   sig(sigacc);
   if (want_sample()) sample("{\"target\":" + jstr(tk) + ",\"image_size\":" + std::to_string(img.size()) + ",\"faults\":" + std::to_string(N) +
                             ",\"rejected\":" + std::to_string(nrej) + ",\"accepted_identical\":" + std::to_string(nident) +
